@@ -209,8 +209,15 @@ extern "C" void h_std_equalities(void) {
    auto& natural = lx.int_type().transfer().convention();
    vp_assert((cc == natural) == (a.len == 0), 3);
    auto& t = lx.get_transfer(k, cc);
-   vp_assert((t == lx.int_type().transfer()) == false || (isCxx && a.len == 0), 4);
+   vp_assert(!(t == lx.int_type().transfer()), 4);                       // linkage and convention carry the same non-trivial spelling here: never natural
    auto& t2 = lx.get_transfer(k, natural);
-   vp_assert((t2 == lx.int_type().transfer()) == isCxx, 5);
+   vp_assert((t2 == lx.int_type().transfer()) == isCxx && (t2 != lx.int_type().transfer()) == !isCxx, 5);
+   // the empty convention requested by spelling is spelled like the natural one: every transfer built from it equals the one built from the natural convention
+   auto& cc0 = lx.get_calling_convention(u8""); auto& t3 = lx.get_transfer(k, cc0);
+   vp_assert(cc0 == natural && t3 == t2 && t2 == t3 && !(t3 != t2), 6);
+   vp_assert((t3 == lx.int_type().transfer()) == isCxx, 7);
+   auto& t4 = lx.get_transfer_from_linkage(k); auto& t5 = lx.get_transfer_from_convention(cc);
+   vp_assert(t4 == t2 && t4 == t3, 8);
+   vp_assert((t5 == lx.int_type().transfer()) == (a.len == 0) && (t5 == t) == isCxx, 9);
    vp_done();
 }
